@@ -3,6 +3,22 @@
 import json, subprocess
 
 CHECKS = {
+ "C13": dict(level="exploration", design="§3 C13",
+   technique="exhaustive enumeration of the requirement closure (serialization) and of scheduler worlds / validated NodePool requirement atoms (whole path), compared with the label-set oracle at the API create",
+   text="(a) Every requirement reachable by intersecting up to three atoms of the operator/value/bound alphabet is serialized by the real code and re-evaluated by the label-set oracle on an exact witness universe. (b) For the C01 worlds and for every single-requirement NodePool on a custom / provider key that the real RuntimeValidate accepts (x pods constraining that key, x both minValues policies) the NodeClaim observed at the API create is compared key by key with the scheduler's in-memory requirements, its instance-type list with the options and minValues floors, its requests with pods plus least daemon overhead, its labels/taints/hash with the template; a crash of the process is a violation.",
+   note="Trusted: oracle/labelset.go; minValues floors recomputed from the harness catalog; NodePool.Hash() is used as given (C15 judges it)."),
+ "C16": dict(level="fault_enumeration", design="§3 C16",
+   technique="exhaustive state x clock-offset enumeration of four reaper controllers with a failure injected at every individual API/provider call (deviation-bounded fault exploration)",
+   text="Expiration, garbage collection, liveness (through the lifecycle controller) and node repair are each reconciled on every state of a full product (flags x clock offsets -1s/0/+1s around each threshold; repair pools of 1..6/10 nodes with every unhealthy count), fault-free and with every way of failing one (quick) / two (thorough) of the calls the reconcile makes. Every Delete of a NodeClaim must be justified by the documented trigger computed from the scenario parameters, and must not follow a failed guarding lookup.",
+   note="Trusted: the fake API server and the fault menu (500 on any call, 409 on optimistic-lock writes, provider error). Duplicate Nodes are enumerated but not judged. Only the safety direction is a violation; 'due but not deleted' is reported as an outcome count."),
+ "C17": dict(level="exploration", design="§3 C17",
+   technique="exhaustive small-scope enumeration of catalogs with shared reservations x pod batches x completion orders, oracle on the created NodeClaims",
+   text="RESERVATION HALF ONLY. Catalogs whose reserved offerings share ids across instance types and NodePools (with differing advertised capacities and an exhausted one) x NodePool sets x all pod batches of <=3 (quick) / <=4 (thorough) shapes x preference policies x completion orders (2 workers, <=1 deviation): holders per reservation id never exceed the minimum advertised capacity, a holder's request admits only reserved launches with exactly its ids, a non-holder's request admits no reserved launch (no silent fallback in strict mode), the manager's guards never panic, and every placement passes the C01 admission oracle.",
+   note="The DRA half of the statement (exclusive devices, shared capacity/counters) is NOT decided by this check: the allocator (~4k lines with CEL selectors) needs its own oracle, see DESIGN.md §5. Trusted: harness catalog description."),
+ "C19": dict(level="exploration", design="§3 C19",
+   technique="exhaustive small-scope enumeration x deviation-bounded exploration of template-evaluation completion orders (H1), commit-order trace, differential truncation check",
+   text="Weighted NodePool sets x catalogs x existing capacity x all batches of <=2 preference-free pods are solved under every completion order of the parallel template evaluation (2 workers / <=1 deviation quick; 2,3,5 workers / <=3 deviations thorough). For the pod that opened each NodeClaim (commit trace from hook H1) every strictly heavier pool must be infeasible by the independent admission oracle. The same world is solved with an unlimited and with a truncated launch list; the truncated list must be a right-sized subset that drops no type with a strictly cheaper compatible available offering than a kept one.",
+   note="Trusted: oracle/admit.go; limits are accounted most pessimistically so that only unambiguous weight inversions are flagged; equal weights are not ordered."),
  "C01": dict(level="exploration", design="§3 C01",
    technique="exhaustive small-scope enumeration of scheduler worlds x deviation-bounded exploration of candidate-evaluation completion orders (hook H1), judged by an independent kube-scheduler admission oracle",
    text="Every world in a closed product (catalogs x NodePool configs x existing/in-flight/deleting/unmanaged capacity x daemonsets x policies x all pod batches of <=2 shapes out of 20) is run through the real Provisioner.Schedule and CreateNodeClaims on an in-memory API server, under every completion order of the parallel candidate evaluation within the deviation bound; every placement is re-judged by an oracle that re-implements kube-scheduler's filters from the pods' ORIGINAL specs, on every (instance type, offering) the created NodeClaim permits. Complete within the alphabet; batches >2 (quick) and Go map-iteration order are outside it.",
